@@ -27,6 +27,14 @@ Proof. intros. apply diagnostic_is_table. Qed.
 Definition C01_npm_facts : matcher_facts npm_matcher := npm_facts.
 Definition C01_crates_facts : matcher_facts crates_matcher := crates_facts.
 Definition C01_gha_facts : matcher_facts gha_matcher := gha_facts.
+(* ... and for the go.mod matcher (well-formed = parse_go_version succeeds) *)
+Definition C01_go_facts : matcher_facts go_matcher := go_facts.
+
+(* a malformed spec admits no version (so "Invalid" never hides a version that would have been found) *)
+Theorem C01_malformed_admits_nothing :
+  malformed_admits_nothing npm_matcher npm_facts /\ malformed_admits_nothing crates_matcher crates_facts /\
+  malformed_admits_nothing gha_matcher gha_facts.
+Proof. exact (conj npm_malformed_admits_nothing (conj crates_malformed_admits_nothing gha_malformed_admits_nothing)). Qed.
 
 (* Invalid beats NotFound *)
 Theorem C01_invalid_beats_not_found :
@@ -99,3 +107,5 @@ Print Assumptions C01_table.
 Print Assumptions C01_invalid_beats_not_found.
 Print Assumptions C01_failed_read_silent.
 Print Assumptions C01_go_pseudo_version_order.
+Print Assumptions C01_malformed_admits_nothing.
+Print Assumptions C01_go_facts.
